@@ -25,7 +25,20 @@ func genWriterCase(r *Rng, prop string, tier string, accelOnly bool, flushProb i
 		mx = maxPayload(tier)
 	}
 	fam, data := RandPayload(r, mx)
-	ops := SplitOps(r, data, r.Intn(5), flushProb)
+	var ops []Op
+	if cfg.Accelerated() && r.Intn(3) == 0 {
+		// sizes and cut points aligned with the internal buffer edges of this setting
+		n := EdgeSize(r, cfg, maxPayload(tier))
+		f := payloadFamilies[2+r.Intn(7)]
+		data = Payload(r, f, n)
+		if len(data) > n {
+			data = data[:n]
+		}
+		fam = "edge:" + f
+		ops = EdgeOps(r, cfg, data, flushProb)
+	} else {
+		ops = SplitOps(r, data, r.Intn(5), flushProb)
+	}
 	if r.Intn(6) == 0 {
 		ops = append([]Op{{K: "F"}}, ops...)
 	}
@@ -82,10 +95,21 @@ func init() {
 					mx = 70000
 				}
 				fam, data := RandPayload(r, mx)
+				edgy := r.Intn(2) == 0
+				if edgy {
+					n := EdgeSize(r, cfg, maxPayload(tier)) + r.Pick([]int{0, 0, 1, 300, 5000})
+					f := payloadFamilies[2+r.Intn(7)]
+					data = Payload(r, f, n)
+					fam = "edge:" + f
+				}
 				// flush positions
 				var cuts []int
 				for k := r.Intn(3); k > 0 && len(data) > 0; k-- {
-					cuts = append(cuts, r.Intn(len(data)+1))
+					if edgy {
+						cuts = append(cuts, min(len(data), EdgeSize(r, cfg, len(data))+r.Pick([]int{0, 0, 50, 200})))
+					} else {
+						cuts = append(cuts, r.Intn(len(data)+1))
+					}
 				}
 				sortInts(cuts)
 				mk := func() []Op {
@@ -93,7 +117,29 @@ func init() {
 					prev := 0
 					for _, cpos := range append(cuts, len(data)) {
 						seg := data[prev:cpos]
+						if edgy && r.Bool() {
+							// cut this segment at absolute buffer edges
+							sub := EdgeOps(r, cfg, data[:cpos], 0)
+							// keep only the part of the partition that lies in [prev, cpos)
+							off := 0
+							for _, o := range sub {
+								a, b := off, off+len(o.D)
+								off = b
+								if b <= prev {
+									continue
+								}
+								if a < prev {
+									a = prev
+								}
+								ops = append(ops, Op{K: "W", D: HexB(append([]byte{}, data[a:b]...))})
+							}
+							if prev == cpos {
+								ops = append(ops, Op{K: "W", D: HexB{}})
+							}
+							goto flushed
+						}
 						ops = append(ops, SplitOps(r, seg, r.Intn(5), 0)...)
+					flushed:
 						if cpos != len(data) || false {
 							ops = append(ops, Op{K: "F"})
 						}
@@ -183,6 +229,16 @@ func init() {
 				case 1:
 					h1 = append(h1, Op{K: "F"})
 				}
+				// histories that already contain Reset calls (pooled writers: Reset on Put and on Get),
+				// also with nothing written in between
+				switch r.Intn(5) {
+				case 0:
+					h1 = append(h1, Op{K: "R"})
+				case 1:
+					h1 = append(h1, Op{K: "R"}, Op{K: "W", D: HexB("x")}, Op{K: "R"})
+				case 2:
+					h1 = append([]Op{{K: "R"}}, h1...)
+				}
 				fam, d2 := RandPayload(r, 20000)
 				h2 := SplitOps(r, d2, r.Intn(5), r.Pick([]int{0, 20}))
 				h2 = append(h2, Op{K: "C"})
@@ -207,6 +263,9 @@ func init() {
 				if after[i].Err != b.Ops[i].Err || after[i].N != b.Ops[i].N {
 					return viol(c, "reset-results/"+cfgClass(*c.Cfg), "%s: op %d after Reset returned (%d,%q), fresh Writer (%d,%q)", c.Cfg, i, after[i].N, after[i].Err, b.Ops[i].N, b.Ops[i].Err)
 				}
+			}
+			if a.LateBytes > 0 {
+				return viol(c, "reset-old-sink/"+cfgClass(*c.Cfg), "%s: %d bytes were written to a destination the Writer had been Reset away from; history shape %s", c.Cfg, a.LateBytes, opsShape(c.Ops))
 			}
 			if !bytes.Equal(a.Out, b.Out) {
 				return viol(c, "reset-bytes/"+cfgClass(*c.Cfg), "%s: bytes after Reset differ from a fresh Writer (%d vs %d bytes, first diff at %d); history shape %s fail_at=%d", c.Cfg, len(a.Out), len(b.Out), firstDiff(a.Out, b.Out), opsShape(c.Ops), c.FailAt)
@@ -249,6 +308,10 @@ func init() {
 						kk = calls - (40 - k)
 					}
 					cs = append(cs, Case{Prop: "C14", Cfg: &cfg, Ops: ops, FailAt: kk, Note: fam})
+					if k%2 == 0 {
+						// one-shot fault: only this call fails, the destination works again afterwards
+						cs = append(cs, Case{Prop: "C14", Cfg: &cfg, Ops: ops, FailAt: -kk, Note: fam, Kind: "oneshot"})
+					}
 				}
 			}
 			return cs
@@ -260,9 +323,13 @@ func init() {
 			}
 			failedOp := -1
 			calls := 0
+			fa := c.FailAt
+			if fa < 0 {
+				fa = -fa
+			}
 			for i, o := range tr.Ops {
 				calls += o.Calls
-				if failedOp < 0 && calls >= c.FailAt {
+				if failedOp < 0 && calls >= fa {
 					failedOp = i
 				}
 			}
@@ -271,7 +338,7 @@ func init() {
 				return nil
 			}
 			if tr.Ops[failedOp].Err != "injected" {
-				return viol(c, "not-reported/"+c.Ops[failedOp].K+"/"+cfgClass(*c.Cfg), "%s: destination failed at call %d during op %d (%s) but the op returned %q", c.Cfg, c.FailAt, failedOp, c.Ops[failedOp].K, tr.Ops[failedOp].Err)
+				return viol(c, "not-reported/"+c.Ops[failedOp].K+"/"+cfgClass(*c.Cfg), "%s: destination failed at call %d during op %d (%s) but the op returned %q", c.Cfg, fa, failedOp, c.Ops[failedOp].K, tr.Ops[failedOp].Err)
 			}
 			for i := failedOp + 1; i < len(tr.Ops); i++ {
 				if tr.Ops[i].Err == "" {
